@@ -12,7 +12,13 @@ Import ListNotations.
 Theorem C08_order :
   forall (is : list instr) (kd : kind),
     vals (defs kd (from_instructions is)) = dedup_spec (sel kd is).
-Proof. intros is kd. rewrite defs_from. apply vals_build. Qed.
+Proof. exact vals_defs_from. Qed.
+
+(** The same, read off the listing: the instructions of kind [kd] in [to_instructions]. *)
+Theorem C08_order_in_listing :
+  forall (is : list instr) (kd : kind),
+    kind_part kd (to_instructions (from_instructions is)) = dedup_spec (sel kd is).
+Proof. intros is kd. exact (kind_part_from kd is). Qed.
 
 (** The whole listing (hence the serialized text) of a built program is a function of the
     instruction sequence, given by the independent specification. *)
@@ -21,11 +27,11 @@ Theorem C08_listing :
 Proof. exact to_instructions_from. Qed.
 
 (** Building via concatenation gives the same program as building the whole sequence at once,
-    for every split point: same maps, body and cache — hence the same listing. *)
+    for every split point: same maps, same body, same cache (as a set) — hence the same listing. *)
 Theorem C08_concat_builds_same_program :
   forall is1 is2 : list instr,
-    add (from_instructions is1) (from_instructions is2) = from_instructions (is1 ++ is2).
-Proof. exact add_from_from. Qed.
+    prog_equiv (add (from_instructions is1) (from_instructions is2)) (from_instructions (is1 ++ is2)).
+Proof. exact add_from_from_equiv. Qed.
 
 Theorem C08_concat_listing :
   forall is1 is2 : list instr,
